@@ -62,6 +62,10 @@ SEEDS = {
     "C15_c": ("_incoming3/C15", "C15", ["C15"], "zip hands on one tuple per arrival: a backlog left after removing the one lagging input"),
     "C17_c": ("_incoming3/C17", "C17", ["C17"], "from_textfile seeks to the end in start(): from_end=True plus a redundant start() or a stop/append/start"),
     "C20_c": ("_incoming3/C20", "C20", ["C20"], "Dask accumulate(with_state=True) emits its first element without metadata: no start, a holding node between accumulate and gather, counters on the inputs"),
+    "C01_c": ("_incoming3/C01", "C01", ["C01"], "slice anchors its step grid at 0 instead of at start: step > 1 with a start that is not a multiple of the step"),
+    "C06_c": ("_incoming3/C06", "C06", ["C06"], "Count.on_new adds len(new) instead of new.count(): a NaN in a counted column (on_old still subtracts count())"),
+    "C10_c": ("_incoming3/C10", "C10", ["C15", "C10"], "combine_latest._remove_upstream pops the last metadata slot instead of the removed input's: three inputs holding metadata, a non-last input disconnected at run time"),
+    "C16_c": ("_incoming3/C16", "C16", ["C20", "C16"], "gather resolves its ordering ticket only around the emit: a function failing on the cluster leaves every later element waiting for ever"),
     "C06_b": ("_incoming2/C06", "C06", ["C06", "C07"], "Mean divides by max(count, 1): a column whose prefix has rows but only NaN values (0.0 instead of NaN)"),
     "C07_b": ("_incoming2/C07", "C07", ["C07"], "Mean.on_old subtracts len(old) instead of old.count(): a NaN row that enters the window and is evicted later"),
     "C11_b": ("_incoming2/C11", "C11", ["C11"], "rolling_accumulator emits result.iloc[-len(new):]: an empty batch after a non-empty one re-emits the retained backlog"),
